@@ -19,7 +19,7 @@ pub fn prop() -> Prop {
     Prop {
         id: "C11",
         level: "exploration",
-        rule: "(1) the complete control-template set: statement trees over {block, als, als/anders, counter loops running 0, 1 and 3 iterations, immediately applied function bodies} nested up to N nodes in which every statement position holds one of {numbered trace point, stop, volgende, antwoord, declaration, empty block, expression}, conditions drawn from {ja, nee, counter tests}, with als/zolang also used as values; each compared with the reference interpreter (trace = output, value, error). (2) residue: every loop-body template up to M nodes iterated 0, 1, 2, 100 and 70 000 times and followed by a probe suffix (a two-argument call, an array literal, a second loop) whose output must equal the model's. (1c) deep chains: every sequence of 4 (quick) / 5 (thorough) nested control constructs from {als, als-anders with the hole in either branch, counter loop, loop on `ja`, block} around an innermost {trace, stop, volgende, antwoord, value}, a trace point before and after every level, all four truth assignments; (1b) sibling templates: a function whose body is a loop (literal `ja` or counter) around two statements S; T, each any depth-1 template, or around THREE statements from a 20-item set (every leaf and one-level branches around each exit), with and without a trailing value, called with all four truth assignments; (2b) condition-driven loops (the progress is made by an assignment, a call or a conjunction in the condition) around every body of <= 2 statements from {volgende, stop, trace, empty block, declaration, value, three branch shapes}, 0/1/3 iterations, as a statement and as an array element; (3) for every program, the abstract stack machine of its real bytecode (bcmc) must have no cycle that grows the stack. Non-trivial = contains a loop or a branch and is defined by the model; distinct = distinct texts",
+        rule: "(1) the complete control-template set: statement trees over {block, als, als/anders, counter loops running 0, 1 and 3 iterations, immediately applied function bodies} nested up to N nodes in which every statement position holds one of {numbered trace point, stop, volgende, antwoord, declaration, empty block, expression}, conditions drawn from {ja, nee, counter tests}, with als/zolang also used as values; each compared with the reference interpreter (trace = output, value, error). (2) residue: every loop-body template up to M nodes iterated 0, 1, 2, 100 and 70 000 times and followed by a probe suffix (a two-argument call, an array literal, a second loop) whose output must equal the model's. (1d) exits across function boundaries: every chain of up to 4 wrappers from {loop, function called on the spot} with one stop / volgende / antwoord before or after the inner wrapper at any level, optionally after a completed nested function definition and / or a completed loop (the exit belongs to the innermost loop of the same function, or the program is refused); (1c) deep chains: every sequence of 4 (quick) / 5 (thorough) nested control constructs from {als, als-anders with the hole in either branch, counter loop, loop on `ja`, block} around an innermost {trace, stop, volgende, antwoord, value}, a trace point before and after every level, all four truth assignments; (1b) sibling templates: a function whose body is a loop (literal `ja` or counter) around two statements S; T, each any depth-1 template, or around THREE statements from a 20-item set (every leaf and one-level branches around each exit), with and without a trailing value, called with all four truth assignments; (2b) condition-driven loops (the progress is made by an assignment, a call or a conjunction in the condition) around every body of <= 2 statements from {volgende, stop, trace, empty block, declaration, value, three branch shapes}, 0/1/3 iterations, as a statement and as an array element; (3) for every program, the abstract stack machine of its real bytecode (bcmc) must have no cycle that grows the stack. Non-trivial = contains a loop or a branch and is defined by the model; distinct = distinct texts",
         assumptions: &["the value of a loop that iterated is unspecified (U4) and never compared", "reference interpreter control-flow rules of DESIGN 4.2"],
         run,
         replay,
@@ -372,6 +372,74 @@ pub fn sibling_templates(f: &mut dyn FnMut(&[Stmt]) -> bool) -> bool {
     true
 }
 
+/// Exits across function boundaries: every chain of up to 4 wrappers from {loop, function called on the spot},
+/// with ONE exit statement (stop, volgende, antwoord) placed before or after the inner wrapper at any level,
+/// optionally preceded by a completed nested function definition and / or a completed inner loop. `stop` and
+/// `volgende` belong to the innermost loop of the SAME function or are refused; `antwoord` needs a function.
+pub fn exit_scopes(f: &mut dyn FnMut(&[Stmt]) -> bool) -> bool {
+    fn build(chain: &[bool], lvl: usize, at: usize, after: bool, pre: usize, exit: &Stmt) -> Vec<Stmt> {
+        let mut here: Vec<Stmt> = Vec::new();
+        let mut exit_block: Vec<Stmt> = Vec::new();
+        if lvl == at {
+            if pre & 1 != 0 {
+                exit_block.push(let_(&format!("dub{lvl}"), func("", &["y"], vec![es(infix(id("y"), Operator::Multiply, int(2)))])));
+            }
+            if pre & 2 != 0 {
+                exit_block.push(es(whil(boolean(false), vec![print1(int(7))])));
+            }
+            exit_block.push(es(iff(id("c"), vec![exit.clone()], None)));
+        }
+        let inner: Vec<Stmt> = if lvl < chain.len() {
+            let body = build(chain, lvl + 1, at, after, pre, exit);
+            if chain[lvl] {
+                // a loop that runs twice
+                let n = format!("n{lvl}");
+                let mut b = vec![es(assign(id(&n), infix(id(&n), Operator::Add, int(1)))), print1(int(7))];
+                b.extend(body);
+                vec![let_(&n, int(0)), es(whil(infix(id(&n), Operator::Lt, int(2)), b))]
+            } else {
+                let name = format!("f{lvl}");
+                let mut b = body;
+                b.push(es(int(lvl as i64)));
+                vec![es(func(&name, &[], b)), print1(calln(&name, vec![]))]
+            }
+        } else {
+            vec![print1(int(7))]
+        };
+        if lvl == at && !after {
+            here.extend(exit_block.clone());
+        }
+        here.extend(inner);
+        if lvl == at && after {
+            here.extend(exit_block);
+        }
+        here.push(print1(int(7)));
+        here
+    }
+    for len in 1..=4usize {
+        for code in 0..(1u32 << len) {
+            let chain: Vec<bool> = (0..len).map(|i| code & (1 << i) != 0).collect();
+            for at in 0..=len {
+                for after in [false, true] {
+                    for pre in 0..4usize {
+                        for exit in [Stmt::Break, Stmt::Continue, Stmt::Return(int(1))] {
+                            for c in [true, false] {
+                                let mut prog = vec![let_("c", boolean(c))];
+                                prog.extend(build(&chain, 0, at, after, pre, &exit));
+                                renumber_prints(&mut prog);
+                                if !f(&prog) {
+                                    return false;
+                                }
+                            }
+                        }
+                    }
+                }
+            }
+        }
+    }
+    true
+}
+
 /// Deep chains: five control constructs nested in each other (every sequence over {als, als-anders with the
 /// hole in either branch, counter loop, loop on `ja`, block}) around an innermost leaf {trace, stop, volgende,
 /// antwoord, value}, a trace point before and after every level, inside a function called with all four
@@ -436,6 +504,14 @@ pub fn deep_chains(depth: usize, f: &mut dyn FnMut(&[Stmt]) -> bool) -> bool {
 }
 
 fn depth_family(sh: &mut Shard, tier: Tier) {
+    exit_scopes(&mut |prog| {
+        if sh.mine() {
+            sh.begin(&|| printer::program(prog));
+            sh.count("family:exit-scopes");
+            check_program(sh, "exit-scopes", prog, 4_000);
+        }
+        sh.running()
+    });
     deep_chains(if tier == Tier::Quick { 4 } else { 5 }, &mut |prog| {
         if sh.mine() {
             sh.begin(&|| printer::program(prog));
